@@ -175,7 +175,8 @@ func (c *RunnerCloserManager) AddCloser(closers ...any) error {   -- `acCall`
     if c.closing.Load() { return ErrManagerAlreadyClosed }        -- `acCheck` (passes) / `acRejectEarly`
     c.mngr.lock.Lock(); defer c.mngr.lock.Unlock()                -- needs the lock Run holds while closing
     if c.closing.Load() { return ErrManagerAlreadyClosed }        -- `acRejectLate`  (only if cfg.recheck: the
-    … c.closers = append(c.closers, …) … }                        -- `acOk`           line added by the fix)
+    … c.closers = append(c.closers, …) … }                        -- `acAppend`       line added by the fix);
+                                                                  -- `acRetOk` = the call returns nil
 func (c *RunnerCloserManager) Run(ctx context.Context) error {    -- `runCall`
     if !c.running.CompareAndSwap(false, true) { return ErrManagerAlreadyStarted }  -- `runCas` / `runRejected`
     defer close(c.stopped)
@@ -278,7 +279,8 @@ structure RCM where
   cl1 : Nat := 0
   cl2 : Nat := 0                  -- Close callers: called / after closed-CAS / waiting on stopped
   ac0 : Nat := 0
-  ac1 : Nat := 0                  -- AddCloser callers: called / passed the first closing check
+  ac1 : Nat := 0
+  ac2 : Nat := 0                  -- AddCloser callers: called / passed the first check / appended
   rErr : List Nat := []
   nclosers : Nat := 0             -- len(c.closers) seen by Run under the lock
   cspawned : Nat := 0
@@ -296,7 +298,7 @@ structure RCM where
 inductive Label where
   | inner (a : RLabel)
   | add (k : Nat) (ok : Bool)
-  | acCall | acCheck | acRejectEarly | acOk | acRejectLate
+  | acCall | acCheck | acRejectEarly | acAppend | acRetOk | acRejectLate
   | runCall | runCas | runRejected
   | prepare | launch | gotInner | lockClosing | cspawn
   | cstart (j : Nat) | cret (j : Nat) (v : CRet) | ccollect (j : Nat)
@@ -331,10 +333,11 @@ def RCM.step (cfg : Cfg) (s : RCM) : Label → Option RCM
     if s.ac0 > 0 ∧ s.closing = false then some { s with ac0 := s.ac0 - 1, ac1 := s.ac1 + 1 } else none
   | .acRejectEarly =>
     if s.ac0 > 0 ∧ s.closing = true then some { s with ac0 := s.ac0 - 1 } else none
-  | .acOk =>
+  | .acAppend =>
     if s.ac1 > 0 ∧ s.lock = false ∧ (cfg.recheck = false ∨ s.closing = false) then
-      some { s with ac1 := s.ac1 - 1, cpcs := s.cpcs ++ [.idle] }
+      some { s with ac1 := s.ac1 - 1, ac2 := s.ac2 + 1, cpcs := s.cpcs ++ [.idle] }
     else none
+  | .acRetOk => if s.ac2 > 0 then some { s with ac2 := s.ac2 - 1 } else none
   | .acRejectLate =>
     if s.ac1 > 0 ∧ s.lock = false ∧ cfg.recheck = true ∧ s.closing = true then
       some { s with ac1 := s.ac1 - 1 }
@@ -451,7 +454,7 @@ def RCM.step (cfg : Cfg) (s : RCM) : Label → Option RCM
 events, user runner/closer body events, the fatal action and clock ticks. Body events of the
 extra closeCh runner are internal too. -/
 def RCM.taus (s : RCM) : List Label :=
-  [.acCheck, .runCas, .prepare, .launch, .gotInner, .lockClosing, .cspawn, .farm, .fenterFire,
+  [.acCheck, .acAppend, .runCas, .prepare, .launch, .gotInner, .lockClosing, .cspawn, .farm, .fenterFire,
    .fenterStop, .fpark, .fcollect, .closeFatal, .finish, .closeS1, .closeS2,
    .inner .runCas, .inner .spawn, .inner .runRet]
   ++ (List.range s.inner.pcs.length).flatMap (fun i => [.inner (.deliver i), .inner (.cancelBy i)])
